@@ -2,6 +2,7 @@ package rules
 
 import (
 	"go/constant"
+	"go/token"
 	"go/types"
 	"strings"
 
@@ -597,4 +598,156 @@ func httpFrameWriteCallDepth(call *ssa.Call, depth int) (bool, int) {
 	}
 	_, end := httpFrameWriteCallDepth(inner[0], depth+1)
 	return true, end
+}
+
+// frameSet is a place where a frame's field gets its value.
+type frameSet struct {
+	Val ssa.Value
+	At  ssa.Instruction
+}
+
+// isFrameCtor: a module function whose single result is a frame that every
+// return builds as a composite literal from its parameters (dataFrame(m), …).
+func isFrameCtor(fn *ssa.Function) bool {
+	if fn == nil || fn.Blocks == nil || fn.Signature.Recv() != nil || fn.Signature.Results().Len() != 1 || core.NamedOf(fn.Signature.Results().At(0).Type()) != "frame" {
+		return false
+	}
+	for _, r := range core.Returns(fn) {
+		ld, ok := r.Results[0].(*ssa.UnOp)
+		if !ok || ld.Op != token.MUL {
+			return false
+		}
+		if _, isA := ld.X.(*ssa.Alloc); !isA {
+			return false
+		}
+	}
+	return true
+}
+
+// frameFieldSets: the places in fn where the given field of a frame gets a
+// value: a store into the field of a frame (composite literal or assignment),
+// or a call of a frame constructor whose result has that field set from an
+// argument. Inside a constructor itself nothing is reported: its call sites are.
+func frameFieldSets(fn *ssa.Function, field string) []frameSet {
+	var out []frameSet
+	if isFrameCtor(fn) {
+		return nil
+	}
+	core.Instrs(fn, func(in ssa.Instruction) {
+		switch x := in.(type) {
+		case *ssa.Store:
+			if base, f, isF := core.FieldOf(x.Addr); isF && f == field && core.NamedOf(base.Type()) == "frame" {
+				out = append(out, frameSet{x.Val, x})
+			}
+		case *ssa.Call:
+			if cal := x.Call.StaticCallee(); cal != nil && isFrameCtor(cal) {
+				if fv := frameFieldValue(x, field); fv != nil {
+					out = append(out, frameSet{fv, x})
+				}
+			}
+		}
+	})
+	return out
+}
+
+// isInprocFrameWriter: fn hands a frame to the peer: it sends on its channel
+// parameter, or it forwards its frame-typed parameter to such a function (a
+// method like sendFrameLocked(f) wrapping the package's frame writer).
+func isInprocFrameWriter(fn *ssa.Function) bool { return inprocFrameWriterDepth(fn, 0) }
+
+func inprocFrameWriterDepth(fn *ssa.Function, depth int) bool {
+	if fn == nil || fn.Blocks == nil || depth > 2 {
+		return false
+	}
+	if sendsOnParam(fn) >= 0 {
+		return true
+	}
+	var fpar *ssa.Parameter
+	for _, pp := range fn.Params {
+		if core.NamedOf(pp.Type()) == "frame" {
+			fpar = pp
+		}
+	}
+	if fpar == nil {
+		return false
+	}
+	found := false
+	core.Instrs(fn, func(in ssa.Instruction) {
+		call, ok := in.(*ssa.Call)
+		if !ok || found {
+			return
+		}
+		cal := call.Call.StaticCallee()
+		if cal == nil || cal == fn || !inprocFrameWriterDepth(cal, depth+1) {
+			return
+		}
+		for _, a := range call.Call.Args {
+			if core.OriginIs(a, func(o ssa.Value) bool { return o == ssa.Value(fpar) }) {
+				found = true
+			}
+		}
+	})
+	return found
+}
+
+// inprocDataWriteOfParam: fn (a module function) writes a data frame whose
+// message is (a Cloner.Clone of) its parameter j, and every possibly-successful
+// return of fn passes that write (a helper like writeDataMessage(…, cloner, m)).
+func inprocDataWriteOfParam(fn *ssa.Function, j int, depth int) bool {
+	if fn == nil || fn.Blocks == nil || depth > 2 || j < 0 || j >= len(fn.Params) {
+		return false
+	}
+	par := fn.Params[j]
+	isW := func(in ssa.Instruction) bool {
+		call, ok := in.(*ssa.Call)
+		if !ok {
+			return false
+		}
+		cal := call.Call.StaticCallee()
+		if cal == nil {
+			return false
+		}
+		if isInprocFrameWriter(cal) {
+			for _, a := range call.Call.Args {
+				if core.NamedOf(a.Type()) != "frame" {
+					continue
+				}
+				dv := frameFieldValue(a, "data")
+				if dv != nil && core.OriginIs(dv, func(o ssa.Value) bool {
+					if o == ssa.Value(par) {
+						return true
+					}
+					cr, _, ok := core.CallResult(o)
+					return ok && isClonerCall(&cr.Call, "Clone") && core.OriginIs(cr.Call.Args[0], func(x ssa.Value) bool { return x == ssa.Value(par) })
+				}) {
+					return true
+				}
+			}
+		}
+		for ai, a := range call.Call.Args {
+			if core.OriginIs(a, func(o ssa.Value) bool { return o == ssa.Value(par) }) && cal != fn && inprocDataWriteOfParam(cal, ai, depth+1) {
+				return true
+			}
+		}
+		return false
+	}
+	n := 0
+	core.Instrs(fn, func(in ssa.Instruction) {
+		if isW(in) {
+			n++
+		}
+	})
+	if n == 0 {
+		return false
+	}
+	ei := core.ErrResultIndex(fn.Signature)
+	for _, r := range core.Returns(fn) {
+		if ei >= 0 && ei < len(r.Results) && core.ClassifyErr(r.Results[ei], r) == core.ErrNonNil {
+			continue
+		}
+		if !core.MustPass(core.Entry(fn), r, isW) {
+			return false
+		}
+	}
+	return true
 }
